@@ -1,6 +1,7 @@
 mod checks;
 mod exec;
 mod genr;
+mod model;
 mod monitors;
 mod refcodec;
 mod reply;
